@@ -18,6 +18,7 @@ import (
 	"time"
 
 	"github.com/github/go-spdx/v2/spdxexp"
+	"github.com/github/go-spdx/v2/spdxexp/spdxlicenses"
 )
 
 func evalStdin() {
@@ -105,6 +106,13 @@ func runGenerator(scratch string, lic, exc []jl, useRepoJSON bool) (map[string][
 	outDir := filepath.Join(scratch, "spdxexp", "spdxlicenses")
 	must(os.MkdirAll(cmdDir, 0o755))
 	must(os.MkdirAll(outDir, 0o755))
+	// the files being regenerated already exist and are LONGER than what will be written (a table that lost ids)
+	for _, f := range []string{"get_licenses.go", "get_deprecated.go", "get_exceptions.go"} {
+		b, err := os.ReadFile(filepath.Join(repoDir(), "spdxexp", "spdxlicenses", f))
+		must(err)
+		b = append(b, []byte("\n// stale tail of a previous, longer table\nvar _ = []string{\"Stale-1.0\", \"Stale-2.0\"}\n")...)
+		must(os.WriteFile(filepath.Join(outDir, f), b, 0o600))
+	}
 	src, _ := filepath.Glob(filepath.Join(repoDir(), "cmd", "*.go"))
 	for _, f := range src {
 		b, err := os.ReadFile(f)
@@ -287,6 +295,7 @@ func genC12(c *Ctx) {
 	for _, f := range c12regenDiff {
 		c.fail("cmd extract -l -e", f, "differs from the committed file", "byte-for-byte identical", "the real generator run on /repo/cmd/*.json in a scratch copy")
 	}
+	c.checkAliasing()
 	// (iv) every listed license id is a valid one-term expression; every exception id only after WITH
 	for _, x := range append(append([]string{}, tActive...), tDeprec...) {
 		if !isIDWord(x) {
@@ -398,6 +407,10 @@ func runC13(c *Ctx, out string) {
 		"X "+hx("LicenseRef-Acme AND LicenseRef-acme OR mit AND MIT"), "X "+hx("LicenseRef-acme AND LicenseRef-Acme"),
 		"S "+hx("MIT OR Apache-2.0")+" "+hxl([]string{"MIT OR Apache-2.0"}), "S "+hx("MIT")+" "+hxl([]string{"MIT OR Apache-2.0"}),
 		"S "+hx("MIT")+" "+hxl([]string{"MIT", "MIT OR Apache-2.0"}))
+	lines = append(lines,
+		"X "+hx("Apache-2.0-or-later AND NOT-A-LICENSE"), "X "+hx("BOGUS"), "X "+hx("MIT AND BOGUS-9.9"), "X "+hx("LicenseRef-"),
+		"S "+hx("MIT")+" "+hxl([]string{"Apache-1.0-or-later", "MIT", "NOT-A-LICENSE"}), "S "+hx("MIT")+" "+hxl([]string{"NOT-A-LICENSE"}),
+		"S "+hx("MIT-or-later AND Zlib-or-later AND FOO")+" "+hxl([]string{"MIT"}), "X "+hx("MIT OR FOO"))
 	// argument-sharing stress: long allowed lists with duplicates in unsorted order
 	lines = append(lines, "S "+hx("MIT OR Apache-2.0")+" "+hxl([]string{"Zlib", "MIT", "Apache-2.0", "MIT", "ISC", "BSD-3-Clause", "Apache-2.0"}),
 		"S "+hx("GPL-2.0-or-later AND MIT")+" "+hxl([]string{"mit", "GPL-3.0-only", "Zlib", "GPL-3.0-only", "0BSD"}),
@@ -517,10 +530,49 @@ func runC13(c *Ctx, out string) {
 		}
 		cc.fail("output", "os.Stdout/os.Stderr during the workload", s, "no bytes", "descriptors 1 and 2 redirected to a pipe")
 	}
+	// cold start: fresh processes whose very first calls are concurrent (lazy initialisation without synchronisation)
+	coldLines := []string{
+		"S " + hx("GPL-3.0-only") + " " + hxl([]string{"GPL-2.0-or-later"}), "S " + hx("Apache-2.0") + " " + hxl([]string{"Apache-1.1+"}),
+		"V " + hx("mit"), "X " + hx("gpl-2.0+ WITH classpath-exception-2.0 OR Zlib"), "S " + hx("LGPL-3.0-only") + " " + hxl([]string{"lgpl-2.1+"}),
+		"S " + hx("CC-BY-4.0") + " " + hxl([]string{"CC-BY-1.0+"}), "V " + hx("0BSD AND (MPL-2.0 OR EPL-2.0)"), "S " + hx("AFL-3.0") + " " + hxl([]string{"AFL-1.1+"}),
+	}
+	coldWant := map[string]string{}
+	for _, l := range coldLines {
+		coldWant[l] = evalLine(l)
+	}
+	self, _ := os.Executable()
+	coldRuns := 6
+	if c.thorough() {
+		coldRuns = 40
+	}
+	coldBad := 0
+	for r := 0; r < coldRuns; r++ {
+		cmd := exec.Command(self, append([]string{"c13cold"}, coldLines...)...)
+		cmd.Env = os.Environ()
+		out, _ := cmd.CombinedOutput()
+		so := string(out)
+		if !strings.Contains(so, "COLD-DONE") {
+			coldBad++
+			msg := so
+			if len(msg) > 600 {
+				msg = msg[:600]
+			}
+			cc.fail("cold start", map[string]interface{}{"calls": "first calls of a fresh process issued from many goroutines at once", "run": r}, "process died: "+msg, "the sequential results", "fresh child process, all goroutines released together")
+			continue
+		}
+		for _, ln := range strings.Split(so, "\n") {
+			f := strings.Split(ln, "\t")
+			if len(f) == 3 && f[0] == "COLD" && coldWant[f[2]] != f[1] {
+				coldBad++
+				cc.fail("cold start", map[string]interface{}{"call": f[2], "run": r}, f[1], coldWant[f[2]], "the same call made sequentially in a warmed-up process")
+			}
+		}
+	}
+	cc.checkAliasing()
 	cc.samples = lines[:5]
 	cc.requests = len(lines) * (histories + 1)
 	cc.write(out, map[string]interface{}{"calls": len(lines), "histories": histories, "goroutines": G, "repetitions": reps,
-		"race_detector": raceEnabled, "captured_output_bytes": captured.Len(), "mutated_arguments": len(mutated), "result_differences": len(diffs)})
+		"race_detector": raceEnabled, "cold_start_processes": coldRuns, "cold_start_differences": coldBad, "captured_output_bytes": captured.Len(), "mutated_arguments": len(mutated), "result_differences": len(diffs)})
 }
 
 // ---------------- C14 ----------------
@@ -725,4 +777,104 @@ func runC14(c *Ctx, out string) {
 	cc.requests = 2*len(rows) + len(cc.order)
 	cc.samples = []string{"and_of_ors n=12: " + func() string { e, _ := families[3].mk(12); return e }()}
 	cc.write(out, map[string]interface{}{"measurements": rows})
+}
+
+// ---------------- table getters return independent values (child process: it scribbles over what it gets) --------
+func aliasChild() {
+	snap := func() string {
+		j, _ := json.Marshal(map[string]interface{}{"a": spdxlicenses.GetLicenses(), "d": spdxlicenses.GetDeprecated(), "e": spdxlicenses.GetExceptions(), "r": spdxlicenses.LicenseRanges()})
+		return string(j)
+	}
+	before := snap()
+	probe := func() string {
+		return evalLine("S "+hx("AFL-3.0")+" "+hxl([]string{"AFL-1.1+"})) + evalLine("V "+hx("0BSD")) + evalLine("X "+hx("mit WITH 389-EXCEPTION")) + evalLine("S "+hx("GPL-3.0-only")+" "+hxl([]string{"GPL-2.0+"}))
+	}
+	p0 := probe()
+	// what a caller may do with slices it was handed: filter in place, re-case, sort, reverse
+	for _, l := range [][]string{spdxlicenses.GetLicenses(), spdxlicenses.GetDeprecated(), spdxlicenses.GetExceptions()} {
+		for i := range l {
+			l[i] = strings.ToUpper(l[i]) + "-X"
+		}
+		for i, j := 0, len(l)-1; i < j; i, j = i+1, j-1 {
+			l[i], l[j] = l[j], l[i]
+		}
+		_ = l[:0]
+	}
+	R := spdxlicenses.LicenseRanges()
+	for _, fam := range R {
+		for i, j := 0, len(fam)-1; i < j; i, j = i+1, j-1 {
+			fam[i], fam[j] = fam[j], fam[i]
+		}
+		for _, g := range fam {
+			for k := range g {
+				g[k] = "zz-" + g[k]
+			}
+		}
+	}
+	if len(R) > 1 {
+		R[0], R[1] = R[1], R[0]
+	}
+	after := snap()
+	p1 := probe()
+	if before != after {
+		fmt.Println("TABLES-SHARED: the values returned by the spdxlicenses getters changed after a caller modified the slices it had been handed")
+	}
+	if p0 != p1 {
+		fmt.Println("RESULTS-CHANGED: " + p0 + " -> " + p1)
+	}
+	fmt.Println("ALIAS-DONE")
+}
+
+func runAliasChild() (string, bool) {
+	self, err := os.Executable()
+	must(err)
+	cmd := exec.Command(self, "aliaschild")
+	out, _ := cmd.CombinedOutput()
+	s := string(out)
+	if !strings.Contains(s, "ALIAS-DONE") {
+		return "child failed: " + s, false
+	}
+	if strings.Contains(s, "TABLES-SHARED") || strings.Contains(s, "RESULTS-CHANGED") {
+		return strings.TrimSpace(strings.Replace(s, "ALIAS-DONE", "", 1)), false
+	}
+	return "", true
+}
+
+func (c *Ctx) checkAliasing() {
+	if !c.final {
+		return
+	}
+	if msg, ok := runAliasChild(); !ok {
+		c.fail("spdxlicenses getters", "GetLicenses / GetDeprecated / GetExceptions / LicenseRanges after a caller modified the returned slices", msg, "fresh, independent values on every call", "child process: snapshot, scribble over the returned slices, snapshot again, re-run probes")
+	}
+}
+
+// ---------------- C13 cold start: the FIRST calls of a fresh process are concurrent ----------------
+func coldChild(args []string) {
+	// args: protocol lines; every goroutine starts at the same moment and runs all of them
+	n := runtime.GOMAXPROCS(0) * 2
+	if n < 8 {
+		n = 8
+	}
+	start := make(chan struct{})
+	res := make([][]string, n)
+	var wg sync.WaitGroup
+	for g := 0; g < n; g++ {
+		wg.Add(1)
+		go func(g int) {
+			defer wg.Done()
+			<-start
+			for i := range args {
+				res[g] = append(res[g], evalLine(args[(i+g)%len(args)])+"\t"+args[(i+g)%len(args)])
+			}
+		}(g)
+	}
+	close(start)
+	wg.Wait()
+	for g := range res {
+		for _, r := range res[g] {
+			fmt.Println("COLD\t" + r)
+		}
+	}
+	fmt.Println("COLD-DONE")
 }
